@@ -36,6 +36,11 @@ ASSUMPTIONS = [
 ]
 
 
+def nkey(d):
+    """Dictionary with values made comparable: NaN != NaN would make every comparison of a content with a NaN fail."""
+    return {c: ("nan" if v != v else v) for c, v in d.items()}
+
+
 def raw_stored(t):
     raw = C.raw_of_tensor(t)
     if raw["problem"]:
@@ -126,6 +131,7 @@ def check_construction(case):
     for c, v in zip(coords, vals):
         model[c] = model.get(c, 0.0) + v
     nz = {c: v for c, v in model.items() if v != 0.0}
+    has_nan = any(v != v for v in model.values())
     fails = []
     oob = case.get("oob")
     if oob is not None:
@@ -171,7 +177,7 @@ def check_construction(case):
     if errs:
         fails.append(fail(f"raw-invalid:{errs[0][0]}", f"{d}: {errs}"))
     raw_nz = {c: v for c, v in stored.items() if v != 0.0}
-    if raw_nz != nz:
+    if nkey(raw_nz) != nkey(nz):
         fails.append(fail("raw-content", f"{d}: stored {sorted(raw_nz.items())[:5]} expected {sorted(nz.items())[:5]}"))
     # a compressed-only tensor must not store coordinates that were never supplied
     if order >= 1 and "d" not in modes and ctor != "lol" and set(stored) - set(model):
@@ -181,11 +187,11 @@ def check_construction(case):
         items = list(t.items())
     except Exception as e:  # noqa: BLE001
         return fails + [fail(f"read-back-raises:{type(e).__name__}", f"{d}: {e}"[:300])], {}
-    if dok != nz:
+    if nkey(dok) != nkey(nz):
         fails.append(fail("to_dok", f"{d}: {sorted(dok.items())[:5]} expected {sorted(nz.items())[:5]}"))
-    if len(items) != len(stored) or dict(items) != stored:
+    if len(items) != len(stored) or nkey(dict(items)) != nkey(stored):
         fails.append(fail("items", f"{d}: items {sorted(items)[:5]} raw {sorted(stored.items())[:5]}"))
-    if t.to_dok(explicit_zeros=True) != stored:
+    if nkey(t.to_dok(explicit_zeros=True)) != nkey(stored):
         fails.append(fail("to_dok-explicit-zeros", d))
     # reading is repeatable and what it returns is the caller's to change: edit every returned dictionary, then read
     # again through every reader (a read that hands out shared internal state, or caches and returns the cache, fails)
@@ -195,19 +201,19 @@ def check_construction(case):
             got[(0,) * order] = 123.0
             for k in list(got)[1:]:
                 del got[k]
-        again = (t.to_dok(), t.to_dok(explicit_zeros=True), dict(t.items()))
-        if again != (nz, stored, stored):
+        again = (nkey(t.to_dok()), nkey(t.to_dok(explicit_zeros=True)), nkey(dict(t.items())))
+        if again != (nkey(nz), nkey(stored), nkey(stored)):
             fails.append(fail("read-back-not-repeatable", f"{d}: after editing the dictionaries returned by to_dok a second read gives "
                               f"{sorted(again[0].items())[:4]} / {sorted(again[1].items())[:4]}, expected {sorted(nz.items())[:4]}"))
-        elif not (t == t) or (case.get("to_format") is None and {c: v for c, v in raw_stored(t.to_format(fmt))[1].items() if v != 0.0} != nz):
+        elif (not has_nan and not (t == t)) or (case.get("to_format") is None and nkey({c: v for c, v in raw_stored(t.to_format(fmt))[1].items() if v != 0.0}) != nkey(nz)):
             fails.append(fail("read-back-not-repeatable", f"{d}: == / to_format disagree with the stored content after the returned dictionaries were edited"))
     except Exception as e:  # noqa: BLE001
         fails.append(fail(f"read-back-raises:{type(e).__name__}", f"{d}: second read: {e}"[:300]))
     try:
         p = pickle.loads(pickle.dumps(t))
         rp = C.raw_of_tensor(p)
-        if (rp["levels"], rp["vals"], rp["dims"], rp["modes"], rp["ordering"]) != (
-                raw["levels"], raw["vals"], raw["dims"], raw["modes"], raw["ordering"]):
+        if (rp["levels"], [repr(x) for x in rp["vals"]], rp["dims"], rp["modes"], rp["ordering"]) != (
+                raw["levels"], [repr(x) for x in raw["vals"]], raw["dims"], raw["modes"], raw["ordering"]):
             fails.append(fail("pickle-changes-structure", d))
     except Exception as e:  # noqa: BLE001
         fails.append(fail(f"pickle-raises:{type(e).__name__}", f"{d}: {e}"[:300]))
@@ -216,13 +222,13 @@ def check_construction(case):
         try:
             t2 = t.to_format(tf)
             r2, s2 = raw_stored(t2)
-            if s2 is None or {c: v for c, v in s2.items() if v != 0.0} != nz:
+            if s2 is None or nkey({c: v for c, v in s2.items() if v != 0.0}) != nkey(nz):
                 fails.append(fail("to_format-content", f"{d} -> {tf}"))
             elif t2.format.deparse() != fmt_canon(tf) or tuple(t2.dimensions) != dims:
                 fails.append(fail("to_format-metadata", f"{d} -> {tf}: {t2.format.deparse()} {t2.dimensions}"))
             elif C.validate_arrays(r2["dims"], r2["ordering"], r2["modes"], r2["levels"], len(r2["vals"])):
                 fails.append(fail("to_format-invalid", f"{d} -> {tf}"))
-            if not (t == t2):
+            if not has_nan and not (t == t2):
                 fails.append(fail("equality-after-to_format", f"{d} -> {tf}"))
         except Exception as e:  # noqa: BLE001
             fails.append(fail(f"to_format-raises:{type(e).__name__}", f"{d} -> {tf}: {e}"[:300]))
@@ -248,6 +254,8 @@ def labels_of(case):
         l.add("duplicate_coordinates")
     if any(v == 0.0 for v in case["vals"]):
         l.add("explicit_zero_value")
+    if any(v != v or v in (float("inf"), float("-inf")) for v in case["vals"]):
+        l.add("non_finite_value")
     if "s" in modes and "d" in modes:
         l.add("mixed_modes")
     if case.get("oob") is not None:
@@ -258,6 +266,8 @@ def labels_of(case):
         l.add("to_format")
     if case.get("container", "list") != "list":
         l.add(f"container:{case['container']}")
+    if case.get("large"):
+        l.add("large_level")
     return l
 
 
@@ -269,6 +279,8 @@ def run_case(case):
     distinct = len(set(map(tuple, case["coords"])))
     nontrivial = len(case["dims"]) >= 2 and distinct >= 2 and case.get("oob") is None
     sample = {k: case[k] for k in ("fmt", "dims", "ctor", "coords", "vals") if k in case}
+    if case.get("large"):
+        sample["stored_entries"] = len(case["coords"])
     sample["coords"] = sample["coords"][:8]
     sample["vals"] = sample["vals"][:8]
     return result(fails, labels, nontrivial, jhash(case), sample)
@@ -327,7 +339,11 @@ def constructions(draw, tier):
             coords += [coords[draw(st.integers(0, len(coords) - 1))]]
     else:
         coords = []
-    vals = [draw(st.sampled_from([1.0, 2.0, -1.0, 0.5, 0.0, -2.0, 3.0])) for _ in coords]
+    pool = [1.0, 2.0, -1.0, 0.5, 0.0, -2.0, 3.0]
+    if draw(st.integers(0, 5)) == 0:
+        # non-finite and signed-zero values are values too: NaN and +-inf are non-zero entries, -0.0 is a zero
+        pool = pool + [float("nan"), float("inf"), float("-inf"), -0.0, 1e308, 5e-324]
+    vals = [draw(st.sampled_from(pool)) for _ in coords]
     if len(coords) >= 2 and coords[-1] in coords[:-1] and draw(st.booleans()):
         j = coords.index(coords[-1])
         vals[-1] = -vals[j]  # cancelling duplicate
@@ -360,6 +376,35 @@ def oob_variants(case):
             if c["ctor"] == "lol":
                 c["ctor"] = "aos"
             yield c
+
+
+def large_task(task):
+    """Levels with thousands of coordinates (a vector of 4096-10000 positions at least half full, one long row or column
+    of a matrix): code paths that only exist for big nodes (bulk sorting, vectorised range checks) are never entered by
+    the small cases.  Each construction is followed by its out-of-range variants."""
+    k, seed = task
+    stats = Stats()
+    n = [4096, 5000, 8192, 10000][k % 4]
+    stride = [1, 2, 1, 3][(k // 4) % 4]          # density 1, 1/2, 1, 1/3
+    keep = [c for c in range(n) if (c * 7 + seed + k) % (2 * stride) < 2] if stride > 1 else [c for c in range(n) if (c + seed + k) % 5 != 0]
+    shapes = [("s", (n,), lambda c: (c,)), ("ds", (2, n), lambda c: (c % 2, c)), ("ss", (n, 2), lambda c: (c, c % 2)),
+              ("s1s0", (2, n), lambda c: (c % 2, c)), ("sd", (n, 2), lambda c: (c, 0))]
+    fmt, dims, mk = shapes[(k // 2) % len(shapes)]
+    coords = [list(mk(c)) for c in keep]
+    vals = [float(1 + (c % 7)) for c in keep]
+    for ctor in (["aos", "dok"] if k % 2 else ["soa", "aos"]):
+        case = {"fmt": fmt, "dims": list(dims), "coords": coords, "vals": vals, "ctor": ctor, "large": True}
+        if k % 3 == 0:
+            case["to_format"] = "".join("s" for _ in dims)
+        stats.add(case, run_case(case))
+        big_axis = max(range(len(dims)), key=lambda a: dims[a])
+        for bad in (dims[big_axis], dims[big_axis] + 5, -1):
+            b = list(coords[len(coords) // 2])
+            b[big_axis] = bad
+            v = dict(case, oob=b, oob_axis=big_axis)
+            v.pop("to_format", None)
+            stats.add(v, run_case(v))
+    return stats
 
 
 def generated_task(task):
@@ -483,6 +528,7 @@ def run(chk):
     chk.coverage_extra["exhaustive_subdomain"] = (
         f"all formats of order 0-3 x all dims in {{0..3}}^n with product <= {max_cells} x all coordinate subsets"
     )
+    chk.absorb(run_tasks(large_task, [(k, chk.seed) for k in range(16 if quick else 160)]), kind="construction")
     n = 2400 if quick else 100000
     chk.absorb(run_tasks(generated_task, [(chk.tier, chk.seed, s_, n // 16) for s_ in range(16)]), shrink=shrink_case,
                kind="construction")
